@@ -325,6 +325,10 @@ class Gen:
         blk = {"k": "directive", "name": d["name"], "domain": d["domain"], "arg": [], "opts": [], "kids": []}
         if d["arg"] == "required" or (d["arg"] == "optional" and rng.random() < 0.6):
             blk["arg"] = self.inlines(allow_nl=False, rich=rng.random() < 0.4, lo=0, hi=3)
+            xs = blk["arg"]
+            if len(xs) >= 3 and xs[1]["k"] == "sp" and xs[2]["k"] in ("role", "roleL") and rng.random() < 0.6:
+                # an argument may BEGIN with a role (`.. note:: :guilabel:`Save` first`): it is the argument all the same
+                blk["arg"] = xs[2:]
         sd = spec.directive[d["key"]]
         for oname, o in d["opts"].items():
             if o["required"] or rng.random() < 0.4:
